@@ -13,5 +13,5 @@ def main():
             h["crate"] = crate
             failed, out = kani.replay_on_real_code(sc, h, "")
             print("=====", h["harness"], "FAILS on the real code" if failed else "passes")
-            print("\n".join(l for l in out.split("\n") if "panicked" in l or "assertion" in l or "left:" in l or "right:" in l or "test result" in l or "error" in l.lower())[:1500])
+            print("\n".join(l for l in out.split("\n") if "panicked" in l or "octets" in l or "seed" in l or "assertion" in l or "left:" in l or "right:" in l or "test result" in l or "error" in l.lower())[:1500])
 main()
